@@ -105,6 +105,14 @@ class KDTree:
         pivot_filter = pts_ax <= pivot
         idx_less = np.extract(pivot_filter, pt_idx)
         idx_more = np.extract(~pivot_filter, pt_idx)
+        if idx_less.size == 0 or idx_more.size == 0:
+            # degenerate pivot (repeated coordinates: the pivot is the largest value along this axis):
+            # every point would stay on the same side forever -> split by rank so that both sides are non-empty
+            order = np.argsort(pts_ax, kind="stable")
+            half = pt_idx.size // 2
+            pivot = pts_ax[order[half-1]]
+            idx_less = pt_idx[order[:half]]
+            idx_more = pt_idx[order[half:]]
         return pivot, idx_less, idx_more
     
     def _find_pivot(self, pts_ax):
